@@ -7,6 +7,7 @@ package main
 import (
 	"bufio"
 	"bytes"
+	"io"
 	"encoding/json"
 	"fmt"
 	"os"
@@ -284,6 +285,29 @@ func run(prop, tier string) int {
 		if r.timedOut {
 			fmt.Fprintf(os.Stderr, "shard %d: wall-clock budget (%v) hit: inconclusive\n", r.shard, budget)
 			inconclusive = true
+		} else if r.exit != 0 && !hadViolation && processDied(r.log) {
+			// the test process itself died (fatal Go error / stack exhaustion): run the same shard again with a
+			// case journal; if it dies again the last journalled case is the culprit
+			jpath := filepath.Join(outDir, fmt.Sprintf("journal-%03d.json", r.shard))
+			_ = os.Remove(jpath)
+			r2 := runProc(bin, prop, tier, r.shard, nshards, outDir, budget, cfg, "VERIF_JOURNAL="+jpath)
+			jb, jerr := os.ReadFile(jpath)
+			if r2.exit != 0 && processDied(r2.log) && jerr == nil && len(jb) > 0 {
+				rdir := filepath.Join(root, "replays")
+				_ = os.MkdirAll(rdir, 0o755)
+				rp := filepath.Join(rdir, fmt.Sprintf("%s-crash-%08x.json", prop, hash(string(jb))))
+				_ = os.WriteFile(rp, jb, 0o644)
+				line := fmt.Sprintf("VIOLATION property=%s replay=%s", prop, rp)
+				if !seen[line] {
+					seen[line] = true
+					violations++
+					fmt.Println(line)
+					fmt.Printf("  the test process died twice (fatal Go error) while checking this case: %s\n", crashReason(r2.log))
+				}
+			} else {
+				fmt.Fprintf(os.Stderr, "shard %d: test process died (%s) but the death did not reproduce with a journal: inconclusive\n", r.shard, crashReason(r.log))
+				inconclusive = true
+			}
 		} else if r.exit != 0 && !hadViolation {
 			fmt.Fprintf(os.Stderr, "shard %d: exit %d without a VIOLATION line (harness problem, see %s)\n", r.shard, r.exit, r.log)
 			tail(r.log, 40)
@@ -302,6 +326,26 @@ func run(prop, tier string) int {
 	}
 	fmt.Printf("OK property=%s tier=%s seed=%d wall=%.1fs evidence=%s\n", prop, tier, seed(), time.Since(start).Seconds(), filepath.Join(root, "evidence", prop+".json"))
 	return 0
+}
+
+// processDied reports whether the log shows a fatal Go runtime error (not an ordinary test failure).
+func processDied(path string) bool {
+	b, err := os.ReadFile(path)
+	if err != nil {
+		return false
+	}
+	t := string(b)
+	return strings.Contains(t, "fatal error:") || strings.Contains(t, "goroutine stack exceeds") || strings.Contains(t, "signal: killed") || strings.Contains(t, "runtime: out of memory")
+}
+
+func crashReason(path string) string {
+	b, _ := os.ReadFile(path)
+	for _, l := range strings.Split(string(b), "\n") {
+		if strings.Contains(l, "fatal error:") || strings.Contains(l, "goroutine stack exceeds") {
+			return strings.TrimSpace(l)
+		}
+	}
+	return "process died"
 }
 
 func tail(path string, n int) {
@@ -330,9 +374,15 @@ func replay(prop, file string) int {
 	cmd.Dir = filepath.Join(root, "props", strings.ToLower(prop))
 	cmd.Env = append(os.Environ(), "VERIF_REPLAY="+abs, "VERIF_ROOT="+root, "VERIF_OUT=")
 	cmd.Stdout = os.Stdout
-	cmd.Stderr = os.Stderr
+	var buf bytes.Buffer
+	cmd.Stderr = io.MultiWriter(os.Stderr, &buf)
 	if err := cmd.Run(); err != nil {
 		if ee, ok := err.(*exec.ExitError); ok {
+			t := buf.String()
+			if ee.ExitCode() != 1 && (strings.Contains(t, "fatal error:") || strings.Contains(t, "goroutine stack exceeds")) {
+				fmt.Printf("VIOLATION property=%s replay=%s\n  the process died (fatal Go error) while replaying this case\n", prop, abs)
+				return 1
+			}
 			return ee.ExitCode()
 		}
 		return 2
